@@ -285,7 +285,7 @@ def run_key_obligation(check, name, shapes, prop_fn, classify, describe, budget_
         return make_key_step(shape, prop_fn, constrain)
     records, errors, summ = msym.run_shapes(check, name, shapes, make, budget_s=budget_s)
     wit = [r for r in records if r["kind"] == "witness"]
-    vio = [r for r in records if r["kind"] == "violation"]
+    vio = [r for r in records if r["kind"] == "violation" and (getattr(check, "only_clauses", None) is None or r["clause"] in check.only_clauses)]
     covers = {}
     for r in records:
         if r["kind"] == "cover":
@@ -551,6 +551,32 @@ def helper_prop(st, it, c, out):
     silent, cases = helper_expected(p, value, c["opts"])
     terms = [z3.Implies(cond, seq_eq(r, exp)) for cond, exp in cases]
     clauses = [("rule_table", z3.Implies(z3.Not(silent), z3.And(terms)))]
+    # Where the property text is silent (rare Sanskrit letters, marks outside the asserted punctuation list, multi-code-point values
+    # whose first character triggers a rule) the outcome must still be one of the outcomes the rule list can produce for this text and
+    # key under *some* reading: nothing is lost or invented beyond that.
+    if len(value) == 1:
+        alts = []
+        n = len(p)
+        v = value[0]
+        iv = kar2vowel_wide(v)
+        alts.append(seq_eq(r, list(p) + [v]))                      # plain append
+        alts.append(seq_eq(r, list(p) + [iv]))                     # vowel forming
+        if n > 0:
+            alts.append(seq_eq(r, list(p[:-1]) + [v, CL.CHANDRA]))   # before chandrabindu
+            alts.append(z3.And(is_h(p[-1]), seq_eq(r, list(p[:-1]) + [iv])))   # hasanta + sign -> vowel
+            alts.append(seq_eq(r, list(p) + [CL.ZWNJ, v]))           # blocked ligature
+            alts.append(z3.And(is_h(p[-1]), seq_eq(r, list(p) + [CL.ZWNJ])))
+            alts.append(z3.And(is_h(p[-1]), seq_eq(r, list(p[:-1]) + [0x0994])))
+        clauses.append(("silent_zone_outcome_is_a_rule_outcome", z3.Implies(silent, z3.Or(alts))))
+    else:
+        first = value[0]
+        alts = [seq_eq(r, list(p) + list(value)), seq_eq(r, list(p) + [first]), seq_eq(r, list(p) + [kar2vowel_wide(first)]),
+                seq_eq(r, list(p) + [CL.ZWJ] + list(value))]
+        if len(p) > 0:
+            alts += [seq_eq(r, list(p[:-1]) + [first, CL.CHANDRA]), seq_eq(r, list(p[:-1]) + [kar2vowel_wide(first)]),
+                     seq_eq(r, list(p) + [CL.ZWNJ, first]), seq_eq(r, list(p) + [CL.ZWNJ]), seq_eq(r, list(p[:-1]) + [0x0994])]
+        is_reph = z3.And(zeq(value[0], REPH[0]), zeq(value[1], REPH[1]), zb(c["opts"]["fixed_old_reph"])) if len(value) == 2 else z3.BoolVal(False)
+        clauses.append(("silent_zone_outcome_is_a_rule_outcome", z3.Implies(z3.And(silent, z3.Not(is_reph)), z3.Or(alts))))
     for i, (cond, exp) in enumerate(cases):
         clauses.append(("cover:case%d_len%d_%d" % (i, min(len(p), 1), min(len(value), 2)), z3.And(cond, z3.Not(silent))))
     ret = out[1]
@@ -564,6 +590,18 @@ def helper_prop(st, it, c, out):
     clauses.append(("no_pending_sign", pend.variant == 0))
     clauses.append(("typed_untouched", len(fm_field(prog, c["fm"], "typed").elems) == 0))
     return clauses
+
+
+def kar2vowel_wide(v):
+    """kar2vowel extended by Unicode's independent forms of the rare signs (U+09C4 -> U+09E0, U+09E2 -> U+098C, U+09E3 -> U+09E1)."""
+    wide = dict(CL.KAR_TO_VOWEL)
+    wide.update({0x09C4: 0x09E0, 0x09E2: 0x098C, 0x09E3: 0x09E1})
+    if not is_sym(v):
+        return wide.get(v, v)
+    e = v
+    for k, iv in wide.items():
+        e = z3.If(v == k, z3.BitVecVal(iv, 32), e)
+    return e
 
 
 def classify_helper(v):
@@ -1234,7 +1272,7 @@ def obl_kar_order(check, two_syllables, thorough=False, budget_s=None):
         return make_kar_history(shape)
     records, errors, summ = msym.run_shapes(check, "kar_order", shapes, make, budget_s=budget_s)
     wit = [r for r in records if r["kind"] == "witness"]
-    vio = [r for r in records if r["kind"] == "violation"]
+    vio = [r for r in records if r["kind"] == "violation" and (getattr(check, "only_clauses", None) is None or r["clause"] in check.only_clauses)]
     covers = set(r["name"] for r in records if r["kind"] == "cover")
     okc, bad = validate_witnesses(check, "kar_order", wit, to_scenario=kar_scenario, compare=kar_compare, cap=3000)
     detail = "%d words, %d paths, %d witnesses replayed natively (%d agree)" % (len(words), summ["paths"], min(len(wit), 3000), okc)
@@ -1428,7 +1466,7 @@ def obl_layout_key(check, budget_s=None):
         return make_layout_key(shape)
     records, errors, summ = msym.run_shapes(check, "layout_key", shapes, make, budget_s=budget_s)
     wit = [r for r in records if r["kind"] == "witness"]
-    vio = [r for r in records if r["kind"] == "violation"]
+    vio = [r for r in records if r["kind"] == "violation" and (getattr(check, "only_clauses", None) is None or r["clause"] in check.only_clauses)]
     covers = set(r["name"] for r in records if r["kind"] == "cover")
     okc, bad = validate_witnesses(check, "layout_key", wit, to_scenario=layout_scenario, compare=layout_compare, cap=3000)
     detail = "%d paths, %d witnesses replayed natively (%d agree)" % (summ["paths"], min(len(wit), 3000), okc)
